@@ -180,7 +180,12 @@ func (ci *ChunkInfo) updateChunkInfo(rootCid, overlay boson.Address, bv []byte) 
 		if v == 0 {
 			return
 		}
-		bit, _ := bitvector.NewFromBytes(bv, v)
+		// the vector comes from the peer: it may be too short for the file
+		bit, err := bitvector.NewFromBytes(bv, v)
+		if err != nil {
+			ci.logger.Errorf("chunk discover: bit vector of %d bytes for %d chunks: %v", len(bv), v, err)
+			return
+		}
 		vb = &discoverBitVector{
 			bit:  bit,
 			time: time.Now().Unix(),
